@@ -1634,6 +1634,8 @@ def run(chk):
 
     from verif import fallthrough
     fallthrough.run(chk, "C05", floor=45)
+    from verif import argorder
+    argorder.run(chk, "C05", floor=170)
 
     chk.assumptions += [
         "slots are joined on the array enum and enumerator (XGRP: on the integer of the key->index tables)",
